@@ -892,10 +892,12 @@ impl DeduplicateTracker {
 
     fn attribute_name(&mut self, xot: &Xot, name: NameId) {
         let namespace = xot.namespace_for_name(name);
+        // mark every element on the path that declares this namespace as the
+        // default one, not only the innermost: the innermost declaration may
+        // itself be redundant, and the attribute still needs its prefix then
         for entry in self.stack.iter_mut().rev() {
             if entry.default_namespace == Some(namespace) {
                 entry.in_use_by_attribute = true;
-                return;
             }
         }
     }
